@@ -1100,13 +1100,6 @@ stream_encoder_mt_init(lzma_next_coder *next, const lzma_allocator *allocator,
 		coder->threads_initialized = 0;
 	}
 
-	// Basic initializations
-	coder->sequence = SEQ_STREAM_HEADER;
-	coder->block_size = (size_t)(block_size);
-	coder->outbuf_alloc_size = (size_t)(outbuf_size_max);
-	coder->thread_error = LZMA_OK;
-	coder->thr = NULL;
-
 	// Allocate the thread-specific base structures.
 	assert(options->threads > 0);
 	if (coder->threads_max != options->threads) {
@@ -1130,6 +1123,15 @@ stream_encoder_mt_init(lzma_next_coder *next, const lzma_allocator *allocator,
 		// threads to stop and wait until they have stopped.
 		threads_stop(coder, true);
 	}
+
+	// Basic initializations. These are done only after the threads of
+	// a possible earlier encoding session have been stopped because
+	// the worker threads read some of these without locking.
+	coder->sequence = SEQ_STREAM_HEADER;
+	coder->block_size = (size_t)(block_size);
+	coder->outbuf_alloc_size = (size_t)(outbuf_size_max);
+	coder->thread_error = LZMA_OK;
+	coder->thr = NULL;
 
 	// Output queue
 	return_if_error(lzma_outq_init(&coder->outq, allocator,
